@@ -492,7 +492,9 @@ def lean_stage(ctx: Ctx, gen: Callable[[], dict[str, str]] | None, theorems: lis
                 changed.append(name)
     ctx.notes["gen_changed"] = changed
     target = f"PynencModel.Props.{ctx.prop}"
-    ok, out = lake_build([target, "pynmodel"])
+    # companion files of the property (Props/C07Inv.lean, Props/C03Wakeup.lean …) are property theorems too
+    extra = sorted(f"PynencModel.Props.{p.stem}" for p in (LEAN / "PynencModel" / "Props").glob(f"{ctx.prop}?*.lean"))
+    ok, out = lake_build([target, *extra, "pynmodel"])
     ctx.cov["checker_cmd"] = (
         f"cd lean && lake build {target} pynmodel && lake env lean PynencModel/Audit/{ctx.prop}.lean "
         "(kernel check of every property theorem against Gen/* regenerated from /repo, then #print axioms)"
